@@ -263,6 +263,52 @@ def _upgrade_conduct(cfl, ri, early_send, bundled_ping, ws_refused):
         k.teardown()
 
 
+def _burst(cfl, mode, n, with_ping):
+    """n send() calls issued back to back (nothing yields in between), mixed text / JSON / binary, optionally with a PING
+    from the server arriving in the middle of it: the server receives exactly those payloads once and in order."""
+    import json
+    k = Kernel()
+    fs = FakeServer(k)
+    fs.heartbeat = False
+    cl = _mk(cfl, k, fs)
+    st = dict(client=cl.flavour, mode=('polling', 'websocket', 'upgraded')[mode], burst=n)
+    try:
+        h = _connect(cl, k, fs, mode == 1, upgrade=(mode == 2))
+        if h.exc is not None or cl.state() != 'connected':
+            return fail(PROP, 'SETUP', 'connect failed: %r' % (h.exc,), **st)
+        sends = [('t%d' % i, {'n': i}, bytes([i, 255]))[i % 3] for i in range(n)]
+        for i, d in enumerate(sends):
+            cl.call('send', d)
+            if with_ping and i == n // 2:
+                fs.push('2mid')
+        k.settle()
+        k.run(until=k.now + 2)
+        recv = [d for tr, t, d in fs.received if t == 4]
+        exp = [d if isinstance(d, (str, bytes)) else json.dumps(d, separators=(',', ':')) for d in sends]
+        if recv != exp:
+            missing = [x for x in exp if x not in recv]
+            return fail(PROP, 'SENDS-ON-THE-WIRE', 'a burst of %d send() calls: the server received %d payloads (missing %r, first '
+                        'received %r)' % (n, len(recv), missing[:4], recv[:4]), **st)
+        pongs = [d for tr, t, d in fs.received if t == 3]
+        if pongs != (['mid'] if with_ping and n > 0 else []):
+            return fail(PROP, 'PONG-ECHO', 'PING "mid" during a burst of %d sends answered with %r' % (n, pongs), **st)
+        if [e for e in cl.events if e[0] == 'disconnect']:
+            return fail(PROP, 'SPURIOUS-DISCONNECT', 'a burst of %d sends ended the connection: %r' % (n, cl.events), **st)
+        return ''
+    finally:
+        cl.close()
+        k.teardown()
+
+
+@cond(quick=dict(N=40, timeout=170, parts=dict(C=[0, 1])), thorough=dict(N=63, timeout=600, parts=dict(C=[0, 1])))
+def send_burst(cfl: int, mode: int, n: int, with_ping: bool) -> str:
+    """
+    pre: cfl == P.C and 0 <= mode <= 2 and 0 <= n <= P.N
+    post: _ == ''
+    """
+    return verdict(untraced(_burst, cfl, mode, n, with_ping))
+
+
 @cond(quick=dict(timeout=120), thorough=dict(timeout=300))
 def upgrade_conduct(cfl: int, ri: int, early_send: bool, bundled_ping: bool, ws_refused: bool) -> str:
     """
